@@ -272,6 +272,7 @@ type model struct {
 	sumFloat       bool // integer _sum is accumulated in float64
 	groupLimitLost bool // limit/offset of the rendered _group selection is ignored when the grouped selection is ordered
 	groupOffsetAll bool // inside groups offset without limit selects nothing
+	avgShared      bool // a later _avg with the field and filter of an earlier one reuses its internal sum/count (limit, offset, order ignored)
 }
 
 // cur is the model in force (set by the diagnoser loop only; the run is single-threaded).
